@@ -132,11 +132,12 @@ class C02(Prop):
         detail = {'stack': ['%s = %s' % (show(a), show(b)) for a, b in stack], 'pair': '%s = %s' % (show(t1), show(t2)),
                   'reference': 'unifiable' if s2 is not None else 'not unifiable'}
         for swap, ending, other, deferred in ((False, 'exhaust', False, False), (False, 'close', False, False), (True, 'exhaust', False, False),
-                                              (False, 'exhaust', True, False), (False, 'exhaust', False, True)):
+                                              (False, 'exhaust', True, False), (False, 'exhaust', False, True), (False, 'exhaust', False, 'method'),
+                                              (True, 'close', False, 'method')):
             if True:
                 r = self._run_impl(stack, kept, t1, t2, swap, ending, before_ref, at_ref, s2 is not None, other, deferred)
                 if r is not None:
-                    detail['variant'] = ('unify(t2,t1)' if swap else 'unify(t1,t2)') + (' with t2 built by another engine' if other else '') + (' all generators created before any is started' if deferred else '')
+                    detail['variant'] = ('unify(t2,t1)' if swap else 'unify(t1,t2)') + (' with t2 built by another engine' if other else '') + (' called in method style: t.unify(u) on the term object as it is (a variable that may be bound already)' if deferred == 'method' else ' all generators created before any is started' if deferred else '')
                     detail['ending'] = ending
                     detail['problem'] = r[1]
                     return FAIL(r[0], detail)
@@ -165,6 +166,9 @@ class C02(Prop):
         gens = []
         try:
             created = None
+            method = deferred == 'method'
+            if method:
+                deferred = False
             if deferred:
                 # every unification - the stack's and the final one - is CREATED first and STARTED afterwards, in order
                 # (a list of goals built up front and run as nested loops): the outcome must be the same
@@ -196,7 +200,15 @@ class C02(Prop):
             o = observe()
             if o != before_ref:
                 return ('state-before-differs', 'before: %s expected %s' % (show(o), show(before_ref)))
-            g = pre_final if deferred else iter(unify(e2, e1) if swap else unify(e1, e2))
+            if method:
+                # the method of the term object itself (what a Python predicate written in method style calls); on a
+                # variable that is bound already it compares values and must leave that binding alone
+                left, right = (e2, e1) if swap else (e1, e2)
+                if not hasattr(left, 'unify'):
+                    return None
+                g = iter(left.unify(right))
+            else:
+                g = pre_final if deferred else iter(unify(e2, e1) if swap else unify(e1, e2))
             try:
                 next(g)
                 yielded = True
